@@ -1,23 +1,38 @@
 #!/bin/bash
-# Re-applies every seeded change to /repo in turn and runs the quick checks that are recorded as
-# catching it; prints one line per change. /repo is restored after each.
+# Re-applies every seeded change in turn and runs the quick checks that are recorded as catching it;
+# prints one line per change.
+#   tools/reseed.sh            applies to /repo itself (git -C /repo apply … ; git -C /repo checkout -- .)
+#   tools/reseed.sh --isolated applies to a scratch worktree of /repo and runs a snapshot of /verif against
+#                              it (VERIF_REPO/VERIF_DIR), so that /repo and /verif stay free meanwhile
 cd "$(dirname "$0")/.."
-for d in seeded/*/; do
+V=$PWD; R=/repo; ISO=0
+if [ "$1" = "--isolated" ]; then
+  ISO=1; shift
+  R=$(mktemp -d /var/tmp/reseed-wt-XXXXXX); rmdir $R
+  git -C /repo worktree add -q --detach $R HEAD || exit 2
+  V=$(mktemp -d /var/tmp/reseed-verif-XXXXXX)
+  rsync -a --exclude .git --exclude replays --exclude evidence $PWD/ $V/
+  mkdir -p $V/evidence $V/replays
+  sed -i "s|=> /repo\$|=> $R|" $V/go.mod   # the snapshot's module graph points at the scratch worktree
+  trap 'git -C /repo worktree remove --force $R; git -C /repo worktree prune; rm -rf $V' EXIT
+fi
+export VERIF_DIR=$V VERIF_REPO=$R
+for d in ${@:-seeded/*/}; do
   n=$(basename $d)
   props=$(python3 -c "import json;print(' '.join(json.load(open('$d/meta.json'))['detected_by_quick_checks']))")
-  if git -C /repo apply --check $PWD/$d/patch.diff 2>/dev/null; then
-    git -C /repo apply $PWD/$d/patch.diff
-  elif git -C /repo apply --3way $PWD/$d/patch.diff >/dev/null 2>&1 && ! git -C /repo diff --cached --name-only --diff-filter=U | grep -q .; then
-    git -C /repo reset -q   # keep the merged change in the working tree only
+  if git -C $R apply --check $PWD/$d/patch.diff 2>/dev/null; then
+    git -C $R apply $PWD/$d/patch.diff
+  elif git -C $R apply --3way $PWD/$d/patch.diff >/dev/null 2>&1 && ! git -C $R diff --cached --name-only --diff-filter=U | grep -q .; then
+    git -C $R reset -q   # keep the merged change in the working tree only
   else
-    git -C /repo reset -q --hard
+    git -C $R reset -q --hard
     echo "$n: PATCH-DOES-NOT-APPLY (tree has moved on; the change was confirmed against the tree of its time)"; continue
   fi
   res=""
   for p in $props; do
-    ./bin/vcheck $p --tier quick >/tmp/.reseed.out 2>&1; code=$?
+    (cd $V && ./bin/vcheck $p --tier quick) >$V/.reseed.out 2>&1; code=$?
     res="$res $p=$code"
   done
-  git -C /repo checkout -- .
+  git -C $R checkout -- .
   echo "$n:$res"
 done
